@@ -575,6 +575,14 @@ def run(ctx):
             ncols = int(rng.integers(1, 21))
             if it % 9 == 0:
                 nrows, ncols = 1, 1
+            elif it % 9 == 4:
+                # dimensions at the neighbours of powers of two / round numbers
+                ed = [31, 32, 33, 99, 100, 101, 127, 128, 129, 255, 256, 257, 511, 512,
+                      513, 1000, 1023, 1024, 1025]
+                ncols = ed[(it // 9) % len(ed)]
+                nrows = [1, 2, 3, ed[(it // 27) % 6]][(it // 9) % 4]
+                if it % 18 == 4:
+                    nrows, ncols = ncols, nrows
             csz = gen_float(rng)
             sgn = [1, -1][int(rng.integers(0, 2))]
             case = {"kind": "grid", "dtype": np.dtype(dtype).str, "nrows": nrows,
